@@ -37,6 +37,12 @@ package bls
 //@ func (*Verifier).Init
 //@   props C10 C13 C09
 //@   requires curveOK()
+//@   // every 16-bit party identifier is accepted: once the identifier table is being built Init does not fail, and every listed
+//@   // identifier ends up in the table (C13: no identifier value is special)
+//@   at return:
+//@     assert [ids-never-refused] result != nil ==> v.parties2EvalPoints == old(v.parties2EvalPoints)
+//@     assert [ids-registered]    result == nil ==> v.parties2EvalPoints != nil && forall i int :: { pp.Parties[i] } 0 <= i && i < len(pp.Parties) ==> uint16(pp.Parties[i]) in v.parties2EvalPoints
+//@   loop 1: invariant [ids] v.parties2EvalPoints != nil && forall i int :: { pp.Parties[i] } 0 <= i && i <= rangeindex#2 ==> uint16(pp.Parties[i]) in v.parties2EvalPoints
 //@
 //@ // preconditions = the documented programming errors the function panics on (caller-side contract)
 //@ func (*Verifier).AggregateSignatures
@@ -44,6 +50,10 @@ package bls
 //@   requires curveOK() && len(signers) >= 2 && len(signatures) == len(signers) && v.parties2EvalPoints != nil
 //@   requires [known]    forall i int :: { signers[i] } 0 <= i && i < len(signers) ==> signers[i] in v.parties2EvalPoints
 //@   requires [distinct] forall i int, j int :: 0 <= i && i < j && j < len(signers) ==> v.parties2EvalPoints[signers[i]] != v.parties2EvalPoints[signers[j]]
+//@   modifies nothing
+//@   // each share is combined under the evaluation point of its own signer (C09)
+//@   on-call localAggregateSignatures(sg, pts):
+//@     assert [own-index] len(pts) == len(signers) && forall m int :: 0 <= m && m < len(signers) ==> pts[m] == v.parties2EvalPoints[signers[m]]
 //@   loop 0: invariant [parsed] len(sigs) == len(signatures) && 0 <= i && forall m int :: 0 <= m && m < i ==> sigs[m] != nil
 //@   loop 1: invariant [points] len(evalPoints) == len(signers) && (forall m int :: 0 <= m && m < len(sigs) ==> sigs[m] != nil) &&
 //@                              forall m int :: 0 <= m && m <= rangeindex ==> evalPoints[m] == v.parties2EvalPoints[signers[m]]
@@ -51,6 +61,23 @@ package bls
 //@ func (*Verifier).Verify
 //@   props C10 C09
 //@   requires curveOK() && v.tPK != nil
+//@   modifies nothing
+//@
+//@ func localVerify
+//@   props C09
+//@   requires curveOK() && pk != nil && sig != nil
+//@   modifies nothing
+//@
+//@ func localSign
+//@   props C09
+//@   requires curveOK() && sk != nil
+//@   modifies nothing
+//@   ensures result != nil
+//@
+//@ func (*TBLS).Sign
+//@   props C09
+//@   requires curveOK() && tbls.sk != nil
+//@   modifies nothing
 
 // ---- Lagrange aggregation: safety level (C10); the algebraic refinement is in the C18 section -----------------------
 
@@ -69,9 +96,9 @@ package bls
 //@   requires curveOK() && len(evaluationPoints) >= 2 && len(signatures) == len(evaluationPoints)
 //@   requires [sigs]     forall m int :: 0 <= m && m < len(signatures) ==> signatures[m] != nil
 //@   requires [distinct] forall a int, b int :: 0 <= a && a < b && b < len(evaluationPoints) ==> evaluationPoints[a] != evaluationPoints[b]
-//@   modifies heap:L!alg!G1
+//@   modifies nothing
 //@   ensures  [non-nil] result != nil
-//@   loop 0: invariant [index] signatureIndex == rangeindex + 1 && sum != nil
+//@   loop 0: invariant [index] signatureIndex == rangeindex + 1 && sum != nil && fresh(sum)
 
 // ---- distributed key generation: state, phases (C05, C11; sequential reading) ----------------------------------------
 
